@@ -81,9 +81,9 @@ def check(case, ctx):
                     raise Fail("measures of -polygon wrong", {"order": od}, facts)
         # Segment.length on every edge
         for p, q in X.edges_of(("G", pts)):
-            s = G.Segment(B.pt(p), B.pt(q))
-            if not near(step("Segment.length()", s.length), X.seg_len(p, q)):
-                raise Fail("Segment.length() wrong", {"p": p, "q": q}, facts)
+            for form, s in (("Segment(Point, Point)", G.Segment(B.pt(p), B.pt(q))), ("Segment(Point, Vector)", G.Segment(B.pt(p), B.vec(X.sub(q, p))))):
+                if not near(step("Segment.length()", s.length), X.seg_len(p, q)):
+                    raise Fail("Segment.length() wrong [%s]" % form, {"p": p, "q": q}, facts)
         # a Segment measured, given another end point through item assignment, measured again; and the edges
         # handed out by segments()
         es = X.edges_of(("G", pts))
